@@ -154,12 +154,15 @@ theorem sel_bc {β : Type} (a b c : β) (s : Nat) (h : s = 1 ∨ s = 2 ∨ s = 3
     selectBits (s <<< 1) [a, b, c] = selectBits s [b, c] := by
   rcases h with rfl | rfl | rfl <;> rfl
 
-/-- **triangle_spec, collinear fallback.** -/
-theorem closestPointTriangleDegenerate_spec (a b c : V)
-    (hcol : V3.cross (b - a) (c - a) = ⟨0, 0, 0⟩)
+/-- **the fallback is the minimiser over the three edges** (no collinearity needed): with exact
+edges, `closestPointTriangleDegenerate` returns a point of an edge, with correct set bits,
+that is no farther from the origin than any point of any of the three edges. -/
+theorem closestPointTriangleDegenerate_edges (a b c : V)
     (hab : EdgeOK a b) (hac : EdgeOK a c) (hbc : EdgeOK b c) :
-    ∃ r, closestPointTriangleDegenerate a b c = .ok r ∧ IsMinNorm (hullSet [a, b, c]) r.pt ∧
-      hullSet (selectBits r.set [a, b, c]) r.pt ∧ 1 ≤ r.set ∧ r.set ≤ 7 := by
+    ∃ r, closestPointTriangleDegenerate a b c = .ok r ∧
+      hullSet (selectBits r.set [a, b, c]) r.pt ∧ 1 ≤ r.set ∧ r.set ≤ 7 ∧
+      ∀ y, (hullSet [a, b] y ∨ hullSet [a, c] y ∨ hullSet [b, c] y) →
+        V3.normSq r.pt ≤ V3.normSq y := by
   obtain ⟨r1, e1, m1, s1, b1⟩ := closestPointLine_edgeOK a b hab
   obtain ⟨r2, e2, m2, s2, b2⟩ := closestPointLine_edgeOK a c hac
   obtain ⟨r3, e3, m3, s3, b3⟩ := closestPointLine_edgeOK b c hbc
@@ -168,18 +171,18 @@ theorem closestPointTriangleDegenerate_spec (a b c : V)
     rw [sel_ac a b c _ b2]; exact s2
   have g3 : hullSet (selectBits (r3.set <<< 1) [a, b, c]) r3.pt := by
     rw [sel_bc a b c _ b3]; exact s3
-  -- generic conclusion from "member with the smallest norm"
   have key : ∀ (p : V) (s : Nat), hullSet (selectBits s [a, b, c]) p →
       V3.dot p p ≤ V3.dot r1.pt r1.pt → V3.dot p p ≤ V3.dot r2.pt r2.pt →
-      V3.dot p p ≤ V3.dot r3.pt r3.pt →
-      1 ≤ s ∧ s ≤ 7 →
-      IsMinNorm (hullSet [a, b, c]) p ∧ hullSet (selectBits s [a, b, c]) p ∧ 1 ≤ s ∧ s ≤ 7 := by
+      V3.dot p p ≤ V3.dot r3.pt r3.pt → 1 ≤ s ∧ s ≤ 7 →
+      hullSet (selectBits s [a, b, c]) p ∧ 1 ≤ s ∧ s ≤ 7 ∧
+      ∀ y, (hullSet [a, b] y ∨ hullSet [a, c] y ∨ hullSet [b, c] y) →
+        V3.normSq p ≤ V3.normSq y := by
     intro p s hp l1 l2 l3 hb
-    refine ⟨⟨hull_selectBits hp, fun x hx => ?_⟩, hp, hb⟩
-    rcases collinear_hull_cover a b c hcol x hx with h | h | h
-    · exact le_trans l1 (m1.2 x h)
-    · exact le_trans l2 (m2.2 x h)
-    · exact le_trans l3 (m3.2 x h)
+    refine ⟨hp, hb.1, hb.2, fun y hy => ?_⟩
+    rcases hy with h | h | h
+    · exact le_trans l1 (m1.2 y h)
+    · exact le_trans l2 (m2.2 y h)
+    · exact le_trans l3 (m3.2 y h)
   have k1 : 1 ≤ r1.set ∧ r1.set ≤ 7 := by rcases b1 with h | h | h <;> rw [h] <;> decide
   have k2 : 1 ≤ (r2.set &&& 0b0001) + ((r2.set &&& 0b0010) <<< 1) ∧
       (r2.set &&& 0b0001) + ((r2.set &&& 0b0010) <<< 1) ≤ 7 := by
@@ -202,10 +205,114 @@ theorem closestPointTriangleDegenerate_spec (a b c : V)
     · simp only [c3, if_false]
       exact ⟨_, rfl, key r1.pt _ g1 (le_refl _) (not_lt.mp c2) (not_lt.mp c3) k1⟩
 
-/-- a face the triangle routine treats exactly: non-degenerate for the code's test, or exactly
-collinear with exact edges -/
+/-- **triangle_spec, collinear fallback.** -/
+theorem closestPointTriangleDegenerate_spec (a b c : V)
+    (hcol : V3.cross (b - a) (c - a) = ⟨0, 0, 0⟩)
+    (hab : EdgeOK a b) (hac : EdgeOK a c) (hbc : EdgeOK b c) :
+    ∃ r, closestPointTriangleDegenerate a b c = .ok r ∧ IsMinNorm (hullSet [a, b, c]) r.pt ∧
+      hullSet (selectBits r.set [a, b, c]) r.pt ∧ 1 ≤ r.set ∧ r.set ≤ 7 := by
+  obtain ⟨r, h1, h2, h3, h4, h5⟩ := closestPointTriangleDegenerate_edges a b c hab hac hbc
+  exact ⟨r, h1, ⟨hull_selectBits h2, fun x hx => h5 x (collinear_hull_cover a b c hcol x hx)⟩,
+    h2, h3, h4⟩
+
+/-! ### slivers: every point of the triangle is within the altitude of the longest edge -/
+
+/-- if `pq` is a longest edge, every point `x` of the triangle has a point `y` of the segment
+`pq` with `|x − y|² · |pq|² ≤ |n|²` (i.e. within the altitude over `pq`) -/
+theorem sliver_near_edge (p q r x : V) (hx : hullSet [p, q, r] x)
+    (hL1 : V3.dot (r - p) (r - p) ≤ V3.dot (q - p) (q - p))
+    (hL2 : V3.dot (r - q) (r - q) ≤ V3.dot (q - p) (q - p)) :
+    ∃ y, hullSet [p, q] y ∧
+      V3.normSq (x - y) * V3.dot (q - p) (q - p) ≤
+        V3.dot (V3.cross (q - p) (r - p)) (V3.cross (q - p) (r - p)) := by
+  obtain ⟨u, v, w, hu, hv, hw, hs, rfl⟩ := hull3_elim hx
+  have hN : 0 ≤ V3.dot (V3.cross (q - p) (r - p)) (V3.cross (q - p) (r - p)) := V3.normSq_nonneg _
+  by_cases he0 : V3.dot (q - p) (q - p) = 0
+  · refine ⟨p, hull_sublist (by simp) _ (hull1_intro p), ?_⟩
+    rw [he0, mul_zero]; exact hN
+  · have he : 0 < V3.dot (q - p) (q - p) := lt_of_le_of_ne (V3.normSq_nonneg _) (Ne.symm he0)
+    set e := V3.dot (q - p) (q - p) with hedef
+    set g := V3.dot (q - p) (r - p) with hgdef
+    set f := V3.dot (r - p) (r - p) with hfdef
+    have hqr : V3.dot (r - q) (r - q) = e + f - 2 * g := by
+      simp only [hedef, hgdef, hfdef, V3.dot_def, V3.sub_x, V3.sub_y, V3.sub_z]; ring
+    have hf0 : 0 ≤ f := V3.normSq_nonneg _
+    have hqr0 : 0 ≤ V3.dot (r - q) (r - q) := V3.normSq_nonneg _
+    have hg0 : 0 ≤ g := by linarith
+    have hge : g ≤ e := by linarith
+    set t := g / e with ht
+    have hte : t * e = g := by rw [ht]; field_simp
+    have ht0 : 0 ≤ t := div_nonneg hg0 he.le
+    have ht1 : t ≤ 1 := (div_le_one he).mpr hge
+    have hw1 : w ≤ 1 := by linarith
+    refine ⟨(u + w * (1 - t)) * p + (v + w * t) * q,
+      hull2_intro p q (by nlinarith [mul_nonneg hw (sub_nonneg.mpr ht1)]) (by nlinarith [mul_nonneg hw ht0])
+        (by linarith), ?_⟩
+    have hlag : V3.dot (V3.cross (q - p) (r - p)) (V3.cross (q - p) (r - p)) = e * f - g * g :=
+      lagrange (q - p) (r - p)
+    rw [hlag]
+    have hexp : V3.normSq (u * p + v * q + w * r - ((u + w * (1 - t)) * p + (v + w * t) * q)) =
+        w * w * (f - 2 * t * g + t * t * e) := by
+      simp only [hedef, hgdef, hfdef, V3.normSq_def, V3.dot_def, V3.sub_x, V3.sub_y, V3.sub_z,
+        V3.add_x, V3.add_y, V3.add_z, V3.smul_x, V3.smul_y, V3.smul_z]
+      ring
+    rw [hexp]
+    have hk : (f - 2 * t * g + t * t * e) * e = e * f - g * g := by
+      linear_combination (t * e - g) * hte
+    have hN' : 0 ≤ e * f - g * g := by rw [← hlag]; exact hN
+    have hww : w * w ≤ 1 := by nlinarith
+    calc w * w * (f - 2 * t * g + t * t * e) * e = w * w * ((f - 2 * t * g + t * t * e) * e) := by ring
+      _ = w * w * (e * f - g * g) := by rw [hk]
+      _ ≤ 1 * (e * f - g * g) := mul_le_mul_of_nonneg_right hww hN'
+      _ = e * f - g * g := one_mul _
+
+theorem cross_normSq_perm (a b c : V) :
+    V3.dot (V3.cross (c - a) (b - a)) (V3.cross (c - a) (b - a)) =
+      V3.dot (V3.cross (b - a) (c - a)) (V3.cross (b - a) (c - a)) ∧
+    V3.dot (V3.cross (c - b) (a - b)) (V3.cross (c - b) (a - b)) =
+      V3.dot (V3.cross (b - a) (c - a)) (V3.cross (b - a) (c - a)) := by
+  constructor <;>
+  · simp only [V3.dot_def, cross_x, cross_y, cross_z, V3.sub_x, V3.sub_y, V3.sub_z]; ring
+
+theorem dot_sub_swap (p q : V) : V3.dot (p - q) (p - q) = V3.dot (q - p) (q - p) := by
+  simp only [V3.dot_def, V3.sub_x, V3.sub_y, V3.sub_z]; ring
+
+/-- every point of a triangle is within the altitude over the longest edge of some edge:
+`|x − y|² · L² ≤ |n|²`, `L² = maxEdgeLenSq`, `n = ab × ac` -/
+theorem sliver_near_boundary (a b c x : V) (hx : hullSet [a, b, c] x) :
+    ∃ y, (hullSet [a, b] y ∨ hullSet [a, c] y ∨ hullSet [b, c] y) ∧
+      V3.normSq (x - y) * maxEdgeLenSq a b c ≤
+        V3.dot (V3.cross (b - a) (c - a)) (V3.cross (b - a) (c - a)) := by
+  obtain ⟨l1, l2, l3⟩ := le_maxEdgeLenSq a b c
+  have hmax : maxEdgeLenSq a b c = V3.dot (b - a) (b - a) ∨
+      maxEdgeLenSq a b c = V3.dot (c - a) (c - a) ∨ maxEdgeLenSq a b c = V3.dot (c - b) (c - b) := by
+    unfold maxEdgeLenSq
+    rcases max_choice (V3.dot (b - a) (b - a)) (max (V3.dot (c - a) (c - a)) (V3.dot (c - b) (c - b)))
+      with h | h
+    · exact Or.inl h
+    · rcases max_choice (V3.dot (c - a) (c - a)) (V3.dot (c - b) (c - b)) with h' | h'
+      · exact Or.inr (Or.inl (by rw [h, h']))
+      · exact Or.inr (Or.inr (by rw [h, h']))
+  rcases hmax with h | h | h
+  · -- ab longest
+    obtain ⟨y, hy, hb⟩ := sliver_near_edge a b c x hx (by rw [← h]; exact l2) (by rw [← h]; exact l3)
+    exact ⟨y, Or.inl hy, by rw [h]; exact hb⟩
+  · -- ac longest: triangle (a, c, b)
+    have hx' : hullSet [a, c, b] x := hull_perm (List.Perm.cons a (List.Perm.swap c b [])) x hx
+    obtain ⟨y, hy, hb⟩ := sliver_near_edge a c b x hx' (by rw [← h]; exact l1)
+      (by rw [dot_sub_swap b c, ← h]; exact l3)
+    exact ⟨y, Or.inr (Or.inl hy), by rw [h, ← (cross_normSq_perm a b c).1]; exact hb⟩
+  · -- bc longest: triangle (b, c, a)
+    have hx' : hullSet [b, c, a] x :=
+      hull_perm ((List.Perm.swap b a [c]).trans (List.Perm.cons b (List.Perm.swap c a []))) x hx
+    obtain ⟨y, hy, hb⟩ := sliver_near_edge b c a x hx' (by rw [dot_sub_swap a b, ← h]; exact l1)
+      (by rw [dot_sub_swap a c, ← h]; exact l2)
+    exact ⟨y, Or.inr (Or.inr hy), by rw [h, ← (cross_normSq_perm a b c).2]; exact hb⟩
+
+/-- a face the triangle routine treats exactly: regular for the code's (repaired) test, or
+exactly collinear with exact edges -/
 def FaceOK (p q r : V) : Prop :=
-  ¬ V3.dot (triNormal p q r) (triNormal p q r) < EPS2 ∨
+  TriRegular p q r ∨
   (V3.cross (q - p) (r - p) = ⟨0, 0, 0⟩ ∧ EdgeOK p q ∧ EdgeOK p r ∧ EdgeOK q r)
 
 theorem closestPointTriangle_faceOK (p q r : V) (h : FaceOK p q r) :
@@ -214,14 +321,104 @@ theorem closestPointTriangle_faceOK (p q r : V) (h : FaceOK p q r) :
   rcases h with h | ⟨hc, h1, h2, h3⟩
   · obtain ⟨t, a1, a2, a3, a4, a5, _⟩ := closestPointTriangle_spec p q r h
     exact ⟨t, a1, a2, a3, a4, a5⟩
-  · have hdeg : V3.dot (triNormal p q r) (triNormal p q r) < EPS2 := by
+  · have hdeg : V3.dot (triNormal p q r) (triNormal p q r) ≤
+        EPS * maxEdgeLenSq p q r * maxEdgeLenSq p q r := by
       rw [triNormal_eq, hc]
-      have : V3.dot (⟨0, 0, 0⟩ : V) ⟨0, 0, 0⟩ = 0 := by simp [V3.dot_def]
-      rw [this]; exact EPS2_pos
+      have h0 : V3.dot (⟨0, 0, 0⟩ : V) ⟨0, 0, 0⟩ = 0 := by simp [V3.dot_def]
+      rw [h0]
+      have := mul_self_nonneg (maxEdgeLenSq p q r)
+      have hE : (0 : ℝ) < EPS := EPS_pos
+      nlinarith
     have : closestPointTriangle p q r = closestPointTriangleDegenerate p q r := by
       simp only [closestPointTriangle, hdeg, if_true]
     rw [this]
     exact closestPointTriangleDegenerate_spec p q r hc h1 h2 h3
+
+/-- triangle inequality in the form needed here: `|y| ≤ |x| + |x − y|` -/
+theorem norm_le_add_dist (x y : V) : V3.norm y ≤ V3.norm x + V3.norm (x - y) := by
+  have hx := V3.norm_nonneg x
+  have hd := V3.norm_nonneg (x - y)
+  have hy := V3.norm_nonneg y
+  have hcs := V3.dot_le_norm_mul (-x) (x - y)
+  have hnx : V3.norm (-x) = V3.norm x := by
+    simp only [V3.norm_def, V3.normSq_def, V3.neg_x, V3.neg_y, V3.neg_z]; ring_nf
+  rw [hnx] at hcs
+  have e : V3.normSq y = V3.normSq x + 2 * V3.dot (-x) (x - y) + V3.normSq (x - y) := by
+    simp only [V3.normSq_def, V3.dot_def, V3.neg_x, V3.neg_y, V3.neg_z, V3.sub_x, V3.sub_y, V3.sub_z]
+    ring
+  have h1 := V3.norm_sq y
+  have h2 := V3.norm_sq x
+  have h3 := V3.norm_sq (x - y)
+  nlinarith [mul_nonneg hx hd]
+
+/-- **triangle, degenerate band of the repaired test** (`|n|² ≤ ε·L⁴`, any shape — sliver,
+near-duplicate or exactly collinear — with exact edges): the fallback returns a point of an
+edge (correct set bits) whose norm exceeds that of no point `x` of the triangle by more than
+`sqrt(ε·L²)` (= `sqrt(EPSILON)` × longest edge): in particular it is within that bound of the
+minimum norm over the triangle. -/
+theorem closestPointTriangle_sliver_bound (a b c : V)
+    (hdeg : V3.dot (triNormal a b c) (triNormal a b c) ≤
+      EPS * maxEdgeLenSq a b c * maxEdgeLenSq a b c)
+    (hab : EdgeOK a b) (hac : EdgeOK a c) (hbc : EdgeOK b c) :
+    ∃ r, closestPointTriangle a b c = .ok r ∧
+      hullSet (selectBits r.set [a, b, c]) r.pt ∧ 1 ≤ r.set ∧ r.set ≤ 7 ∧ 7 ≤ r.br ∧
+      (∀ y, (hullSet [a, b] y ∨ hullSet [a, c] y ∨ hullSet [b, c] y) →
+        V3.normSq r.pt ≤ V3.normSq y) ∧
+      ∀ x, hullSet [a, b, c] x →
+        V3.norm r.pt ≤ V3.norm x + Real.sqrt (EPS * maxEdgeLenSq a b c) := by
+  have e : closestPointTriangle a b c = closestPointTriangleDegenerate a b c := by
+    simp only [closestPointTriangle, hdeg, if_true]
+  obtain ⟨r, h1, h2, h3, h4, h5⟩ := closestPointTriangleDegenerate_edges a b c hab hac hbc
+  have hbr : 7 ≤ r.br := by
+    unfold closestPointTriangleDegenerate at h1
+    obtain ⟨r1, e1, _⟩ := closestPointLine_edgeOK a b hab
+    obtain ⟨r2, e2, _⟩ := closestPointLine_edgeOK a c hac
+    obtain ⟨r3, e3, _⟩ := closestPointLine_edgeOK b c hbc
+    simp only [e1, e2, e3, bind, Except.bind] at h1
+    split_ifs at h1 <;> (cases h1; show (7 : Nat) ≤ _; norm_num)
+  rw [e]
+  refine ⟨r, h1, h2, h3, h4, hbr, h5, fun x hx => ?_⟩
+  set L2 := maxEdgeLenSq a b c with hL2
+  have hL0 : 0 ≤ L2 := maxEdgeLenSq_nonneg a b c
+  have hE : (0 : ℝ) < EPS := EPS_pos
+  obtain ⟨y, hy, hb⟩ := sliver_near_boundary a b c x hx
+  rw [← triNormal_eq] at hb
+  have hd2 : V3.normSq (x - y) ≤ EPS * L2 := by
+    by_cases h0 : L2 = 0
+    · -- all three points coincide, so N = 0 and … use hb with L2 = 0 is useless: argue directly
+      obtain ⟨l1, l2, _⟩ := le_maxEdgeLenSq a b c
+      rw [← hL2, h0] at l1 l2
+      have zb := V3.normSq_eq_zero (a := b - a) (le_antisymm l1 (V3.normSq_nonneg _))
+      have zc := V3.normSq_eq_zero (a := c - a) (le_antisymm l2 (V3.normSq_nonneg _))
+      have bx : b.x = a.x := by have := congrArg V3.x zb; simp at this; linarith
+      have by' : b.y = a.y := by have := congrArg V3.y zb; simp at this; linarith
+      have bz : b.z = a.z := by have := congrArg V3.z zb; simp at this; linarith
+      have cx : c.x = a.x := by have := congrArg V3.x zc; simp at this; linarith
+      have cy : c.y = a.y := by have := congrArg V3.y zc; simp at this; linarith
+      have cz : c.z = a.z := by have := congrArg V3.z zc; simp at this; linarith
+      -- x = a and y = a
+      have hxa : ∀ z, hullSet [a, b, c] z → z = a := by
+        intro z hz
+        obtain ⟨u, v, w, _, _, _, hs, rfl⟩ := hull3_elim hz
+        have hu : u = 1 - v - w := by linarith
+        apply V3.ext' <;> simp [bx, by', bz, cx, cy, cz, hu] <;> ring
+      have hya : y = a := by
+        rcases hy with h | h | h
+        · exact hxa y (hull_sublist (by simp) _ h)
+        · exact hxa y (hull_sublist (by simp) _ h)
+        · exact hxa y (hull_sublist (by simp) _ h)
+      rw [hxa x hx, hya, h0]
+      simp [V3.normSq_def]
+    · have hLpos : 0 < L2 := lt_of_le_of_ne hL0 (Ne.symm h0)
+      have : V3.normSq (x - y) * L2 ≤ EPS * L2 * L2 := le_trans hb hdeg
+      have h' : V3.normSq (x - y) * L2 ≤ (EPS * L2) * L2 := this
+      exact le_of_mul_le_mul_right h' hLpos
+  have hry : V3.norm r.pt ≤ V3.norm y := by
+    rw [V3.norm_def, V3.norm_def]; exact Real.sqrt_le_sqrt (h5 y hy)
+  have hyx := norm_le_add_dist x y
+  have hdn : V3.norm (x - y) ≤ Real.sqrt (EPS * L2) := by
+    rw [V3.norm_def]; exact Real.sqrt_le_sqrt hd2
+  linarith
 
 end Simplex
 end D3
